@@ -232,6 +232,44 @@ func scenC13(r *Run) {
 			return
 		}
 		r.Fail("C13:sender-stuck:"+kind+":"+decl, "status %v at step %d (limit %d); parked %v", st, step, L, sim.ParkedNames())
+		return
+	}
+	// several oversized requests at once (the multiplexing transports refuse from their read loop while a writer
+	// loop sends the answers): every caller gets its refusal
+	if decl == "truthful" && limit >= 0 && L >= 7 && L <= 1000 && (kind == "udp" || kind == "socket" || strings.HasPrefix(kind, "websocket")) {
+		n := 2 + r.Plan(3)
+		errs := make([]error, n)
+		fin := 0
+		io0, fn0 := ioCount, fnCount
+		for i := 0; i < n; i++ {
+			i := i
+			cl := fx.NewClient()
+			cl.Timeout = 30 * time.Second
+			body, _ := exactCall(L + 1 + i)
+			sim.Task(fmt.Sprintf("zover%d", i), func() {
+				_, errs[i] = cl.Request(clientCtx(cl), body)
+				fin++
+			})
+		}
+		if st := sim.Drive(func() bool { return fin == n }); sim.Failure() != nil || st != verifsim.Done {
+			if sim.Failure() == nil && st != verifsim.StepCap {
+				r.Fail("C13:sender-stuck:"+kind+":concurrent-oversized", "status %v with %d oversized requests in flight; parked %v", st, n, sim.ParkedNames())
+			}
+			return
+		}
+		if ioCount != io0 || fnCount != fn0 {
+			r.Fail("C13:over-limit-processed:"+kind+":concurrent-oversized", "limit %d: of %d simultaneous oversized requests the IO plugin saw %d, the function %d", L, n, ioCount-io0, fnCount-fn0)
+			return
+		}
+		for i, e := range errs {
+			if !errors.Is(e, core.ErrRequestEntityTooLarge) && (e == nil || e.Error() != core.ErrRequestEntityTooLarge.Error()) {
+				if kind == "socket" && e != nil && (strings.Contains(e.Error(), "closed") || e.Error() == "EOF") {
+					continue // the recorded socket finding: refusal lost when the body write fails first
+				}
+				r.Fail("C13:no-too-large-error:"+kind+":concurrent-oversized", "limit %d: %d oversized requests at once, caller %d got %v instead of the request-too-large error (all: %v)", L, n, i, e, errs)
+				return
+			}
+		}
 	}
 }
 
